@@ -8,6 +8,7 @@
 
 mod comps;
 mod gen;
+mod nest;
 mod queries;
 mod world;
 
@@ -803,6 +804,16 @@ impl St {
             "conv" => {
                 let Some(h) = self.get_h(t[1]) else { return "undef".into() };
                 conv(h)
+            }
+            "nest" => {
+                let Some(nodes) = nest::parse(&t[1..]) else { return "bad-op".into() };
+                let hs = self.hs.clone();
+                let Some(w) = self.w() else { return "no-world".into() };
+                let w: &Wa = w;
+                let tr = std::cell::RefCell::new(Vec::<String>::new());
+                let r = guard(|| nest::exec_nodes(&hs, w, &nodes, &tr));
+                let sweep = nest::sweep(w);
+                format!("[{}] end={} sweep={}", tr.borrow().join(" "), match r { Ok(()) => "ok".to_string(), Err(c) => format!("panic:{}", c) }, if sweep { "ok" } else { "BAD" })
             }
             _ => "bad-op".into(),
         }
